@@ -89,6 +89,10 @@ func genC11(t *rapid.T) any {
 		if rapid.IntRange(0, 5).Draw(t, "fncall") == 0 {
 			extra = append(extra, "  set req.http.X-F = fn_s(\"a\");")
 		}
+		if rapid.IntRange(0, 3).Draw(t, "return") == 0 {
+			extra = append(extra, "  if (req.http.X-R) {\n    return;\n  }")
+			feat["return-in-helper"] = true
+		}
 		c.Subs = append(c.Subs, renderSub(fmt.Sprintf("sub helper_%d", i), "", body, extra))
 		if rapid.IntRange(0, 9).Draw(t, "dup") == 0 {
 			if rapid.Bool().Draw(t, "dupbody") {
@@ -141,9 +145,12 @@ func genC11(t *rapid.T) any {
 		c.Modules["m1"] = "include \"m2\";\nsub from_m1 {\n  set req.http.X-M1 = \"1\";\n}\n"
 		c.Modules["m2"] = "include \"m1\";\nsub from_m2 {\n  set req.http.X-M2 = \"1\";\n}\n"
 	}
+	if rapid.Bool().Draw(t, "recv-return") {
+		recvExtra = append(recvExtra, "  if (req.http.X-P) {\n    return(pass);\n  }", "  return(lookup);")
+	}
 	c.Subs = append(c.Subs, renderSub("sub vcl_recv", "recv", append(g.declares(), g.block(0, 1, 5)...), recvExtra))
 	if rapid.Bool().Draw(t, "deliver") {
-		c.Subs = append(c.Subs, renderSub("sub vcl_deliver", "deliver", append(g.declares(), g.block(0, 1, 3)...), calls(nUser, -1)))
+		c.Subs = append(c.Subs, renderSub("sub vcl_deliver", "deliver", append(g.declares(), g.block(0, 1, 3)...), append(calls(nUser, -1), "  return(deliver);")))
 	}
 	if rapid.IntRange(0, 3).Draw(t, "fetch") == 0 {
 		c.Subs = append(c.Subs, renderSub("sub vcl_fetch", "fetch", append(g.declares(), g.block(0, 1, 3)...), calls(nUser, -1)))
